@@ -57,6 +57,10 @@ def flatten(t, guard=T.TRUE, loops=(), stop_at_lphi=False) -> list:
         elif tg == 'mcall':
             out.append(Op('call', cur[1], cur, name=cur[2], args=cur[3], kws=cur[4], guard=guard, loops=loops))
             cur = cur[1]
+        elif tg == 'mask':
+            # x[cond]: a row filter producing the next state of the frame
+            out.append(Op('call', cur[1], cur, name='filter', args=(cur[2],), guard=guard, loops=loops))
+            cur = cur[1]
         elif tg == 'loopres':
             out.extend(flatten(cur[4], guard, loops + (cur[1],), stop_at_lphi=True))
             cur = cur[3]
